@@ -21,3 +21,8 @@ FOR_DIMS4(DIAGFLAT)
 #define WHERE(D) KERNEL int K(k_where##D)(const size_t* shape, const unsigned* cond, const unsigned* x, const unsigned* y, ARGS_OUT){ \
   src_t<D> c, a, b; if (!mk##D(c,shape,cond) || !mk##D(a,shape,x) || !mk##D(b,shape,y)) return -1; return OBSV(view::where(c, a, b)); }
 FOR_DIMS4(WHERE)
+
+// diagflat of a FIXED-size source with the diagonal given as a compile-time constant (the shape n+|k| is then computed in the type system)
+#define DIAGFLAT_CT(NAME, KV) KERNEL int K(k_diagflat_ct_##NAME)(const unsigned* data, const size_t* idx, size_t nidx, size_t* oshape, size_t* odim, unsigned* out){ \
+  unsigned a[3] = {data[0], data[1], data[2]}; return OBSV(view::diagflat(a, meta::ct_v<KV>)); }
+DIAGFLAT_CT(m2, -2) DIAGFLAT_CT(m1, -1) DIAGFLAT_CT(0, 0) DIAGFLAT_CT(p1, 1) DIAGFLAT_CT(p2, 2)
